@@ -64,6 +64,10 @@ class Catalog(object):
             self.chars.update(ord(c) for c in s)
 
     def note_json(self, v):
+        if isinstance(v, float) and v == v and v not in (float('inf'), float('-inf')):
+            if not hasattr(self, 'floats'):
+                self.floats = set()
+            self.floats.add(repr(v))          # the literal json.dumps writes for it
         if isinstance(v, str):
             self.note(v)
         elif isinstance(v, dict):
@@ -87,7 +91,15 @@ class Catalog(object):
         return {'given': True, 'name': bl(nb), 'codec': self.desc(name)}
 
     def tables(self):
-        out = {'_': {'enc': {}, 'dec': {}}}
+        # number literals that are not in canonical form: what the platform's float() makes of them (trusted)
+        lits = set(EXOTIC_FLOAT_LITERALS) | set(getattr(self, 'floats', ()))
+        flt = []
+        for lit in sorted(lits):
+            try:
+                flt.append({'l': cps(lit), 'r': cps(repr(float(lit)))})
+            except ValueError:
+                pass
+        out = {'_': {'enc': {}, 'dec': {}, 'flt': flt}}
         for tid in sorted(self.tids):
             enc = {}
             dec = {}
@@ -108,6 +120,9 @@ class Catalog(object):
         return out
 
 
+# literals foreign producers write: exponents, upper-case E, trailing zeros, more digits than a double holds, overflow
+EXOTIC_FLOAT_LITERALS = ['1e999', '-1e999', '1E5', '2.50', '1.0e-7', '12345678901234567890.0', '0.1e1', '5e-324', '1e+16',
+                         '1e-05', '-0.0', '0.0001', '0.00001', '123456789.123456789', '1e5', '6.02E23', '-2.5E-3']
 _CANON_FLOAT = re.compile(r'^-?(0|[1-9][0-9]*)\.([0-9]+)$')
 
 
@@ -141,12 +156,11 @@ def jabs(v):
             z['n'] = abs(v)
             z['neg'] = v < 0
     elif isinstance(v, float):
-        r = repr(v)
-        if canonical_float(r):
-            z['t'] = 'float'
-            z['s'] = cps(r)
+        if v != v:
+            z['t'] = 'other:nan'          # not a value of the model (NaN is not equal to itself)
         else:
-            z['t'] = 'other:float'
+            z['t'] = 'float'
+            z['s'] = cps(repr(v))         # 'inf' / '-inf' for the non-finite ones
     elif isinstance(v, str):
         z['t'] = 'str'
         z['s'] = cps(v)
